@@ -15,6 +15,7 @@ ROOT = os.path.dirname(os.path.dirname(os.path.abspath(__file__)))
 SPEC = os.path.join(ROOT, "spec")
 HARNESS = os.path.join(ROOT, "harness")
 WORK = os.path.join(ROOT, ".work")
+TLA_CP = "/opt/veriftools/tla/tla2tools.jar:/opt/veriftools/tla/CommunityModules-deps.jar"      # what the `tlc` wrapper on PATH uses
 REPLAYS = os.path.join(ROOT, "replays")
 EVIDENCE = os.path.join(ROOT, "evidence")
 TLA_JAR = "/opt/veriftools/tla/tla2tools.jar"
@@ -135,15 +136,18 @@ def run_tlc(pid, module, cfg=None, env=None, workers=None, simulate=None, depth=
     tag = tag or cfg
     meta = os.path.join(workdir(pid), "tlc_" + tag)
     shutil.rmtree(meta, ignore_errors=True)
-    # thread stacks: deep recursive operators need more than the default, but 1 GB x (threads of a JVM) x (JVMs run in
-    # parallel) exhausts the address space TLC can commit and shows up as a spurious StackOverflowError
-    jopts = "-Xss" + (xss or "192m") + " -XX:CICompilerCount=2 -XX:ParallelGCThreads=2"
+    # Thread stacks: deep recursive operators need far more than the default.  The stack of the MAIN thread (which evaluates
+    # the invariants on initial states, i.e. all of mode V) is fixed by the java launcher from a -Xss on the COMMAND LINE;
+    # JAVA_TOOL_OPTIONS only reaches threads created later - so java is started directly instead of through the `tlc` wrapper.
+    ss = xss or "512m"
+    jvm = ["-Xss" + ss, "-Xmx" + xmx, "-XX:+UseParallelGC", "-XX:CICompilerCount=2", "-XX:ParallelGCThreads=2"]
     if deque:
-        jopts += " -Dtlc2.tool.queue.IStateQueue=StateDeque"
-    e = dict(os.environ, JAVA_TOOL_OPTIONS=jopts)
+        jvm.append("-Dtlc2.tool.queue.IStateQueue=StateDeque")
+    e = dict(os.environ)
+    e.pop("JAVA_TOOL_OPTIONS", None)
     if env:
         e.update({k: str(v) for k, v in env.items()})
-    cmd = ["timeout", str(timeout), "tlc"]
+    cmd = ["timeout", str(timeout), "java"] + jvm + ["-cp", TLA_CP, "tlc2.TLC"]
     cmd += ["-metadir", meta, "-cleanup", "-noGenerateSpecTE", "-config", os.path.join(SPEC, cfg + ".cfg")]
     cmd += ["-workers", str(workers or 1)]
     if coverage and not simulate:
@@ -157,7 +161,6 @@ def run_tlc(pid, module, cfg=None, env=None, workers=None, simulate=None, depth=
     if extra:
         cmd += extra
     cmd += [os.path.join(SPEC, module + ".tla")]
-    e["JAVA_TOOL_OPTIONS"] = jopts + " -Xmx" + xmx
     res = TlcResult()
     t = time.time()
     p = subprocess.Popen(cmd, cwd=SPEC, env=e, stdout=subprocess.PIPE, stderr=subprocess.STDOUT, text=True, errors="replace")
